@@ -1,8 +1,642 @@
 import QP.Base
+/-!
+# C15 — volatile repetition counts: marking, update, merge
+
+Model of the code that exists (with the repairs PF-07 of `JointScope.get_volatile_parameters` and PF-C15d of the
+merge product applied, see `fixes/`):
+
+* `Expr`                — integer count expressions as sympy hands them over (`Add/Mul/Pow/Integer/Symbol`)
+* `Scope`               — `DictScope | MappedScope | RangeScope | JointScope` (the joint scope in the binary
+                          form `VolatileValue.operation` builds for the merge product)
+  `Scope.get`           — `get_parameter`            `Scope.isVol x` — `x in scope.get_volatile_parameters()`
+  `Scope.change`        — `change_constants`
+* `RepDef`              — `int | VolatileRepetitionCount(expression, scope)`; `intOf` = `__int__`,
+                          `update` = `update_volatile_dependencies`, `prod` = the product of `_merge_single_child`
+* `Forest`              — a list of `Loop`s in first-child / next-sibling form (a program is a one-element forest)
+* `compile`             — `_internal_create_program` of Atomic / Repetition / Sequence / Mapping / ForLoop
+                          templates through `LoopBuilder` (only the count structure; leaves are waveform ids)
+* `compileCounts`, `markVolatile` — the same compilation split into "count structure" and "marking" (spec side)
+* `cleanupF`            — `Loop.cleanup()` (remove empty loops, merge single children; no measurements)
+* `tableUpdate`         — `TaborProgram.update_volatile_parameters` over a flat array of table cells
+-/
 namespace QP.C15
 open Sexp
 
+abbrev Name := String
+
+/-! ## count expressions -/
+
+inductive Expr where
+  | lit (v : Int)
+  | var (x : Name)
+  | add (a b : Expr)
+  | sub (a b : Expr)
+  | mul (a b : Expr)
+  | pow (a : Expr) (k : Nat)
+  | max0 (a : Expr)              -- `Max(0, a)` (the clamped factors of the merge product)
+  deriving Repr, BEq, DecidableEq, Inhabited
+
+/-- `evaluate_in_scope`: `none` = a variable is missing (`ParameterNotProvidedException`) -/
+def Expr.eval (env : Name → Option Int) : Expr → Option Int
+  | .lit v => some v
+  | .var x => env x
+  | .add a b => match a.eval env, b.eval env with
+      | some x, some y => some (x + y)
+      | _, _ => none
+  | .sub a b => match a.eval env, b.eval env with
+      | some x, some y => some (x - y)
+      | _, _ => none
+  | .mul a b => match a.eval env, b.eval env with
+      | some x, some y => some (x * y)
+      | _, _ => none
+  | .pow a k => match a.eval env with
+      | some x => some (x ^ k)
+      | none => none
+  | .max0 a => match a.eval env with
+      | some x => some (if x < 0 then 0 else x)
+      | none => none
+
+/-- `Expression.variables` -/
+def Expr.vars : Expr → List Name
+  | .lit _ => []
+  | .var x => [x]
+  | .add a b => a.vars ++ b.vars
+  | .sub a b => a.vars ++ b.vars
+  | .mul a b => a.vars ++ b.vars
+  | .pow a _ => a.vars
+  | .max0 a => a.vars
+
+/-! ## scopes -/
+
+/-- operand names of `VolatileRepetitionCount.operation` in `Loop._merge_single_child` -/
+def pn : Name := "parent_repetition_count"
+def cn : Name := "child_repetition_count"
+
+inductive Scope where
+  | dict (vals : List (Name × Int)) (vol : List Name)
+  | mapped (inner : Scope) (m : List (Name × Expr))
+  | range (inner : Scope) (idx : Name) (v : Int)
+  | joint (ps cs : Scope)       -- JointScope({pn: ps, cn: cs})
+  deriving Repr, Inhabited
+
+/-- `Scope.get_parameter` -/
+def Scope.get : Scope → Name → Option Int
+  | .dict vals _, x => vals.lookup x
+  | .mapped inner m, x =>
+      match m.lookup x with
+      | some e => e.eval (fun y => inner.get y)
+      | none => inner.get x
+  | .range inner i v, x => if x = i then some v else inner.get x
+  | .joint ps cs, x => if x = pn then ps.get pn else if x = cn then cs.get cn else none
+
+/-- `x in scope.get_volatile_parameters()` (membership view of the volatile mapping; `JointScope` as repaired
+by PF-07, i.e. iterating over `items()`) -/
+def Scope.isVol : Scope → Name → Bool
+  | .dict _ vol, x => vol.contains x
+  | .mapped inner m, x =>
+      match m.lookup x with
+      | some e => e.vars.any (fun y => inner.isVol y)
+      | none => inner.isVol x
+  | .range inner i _, x => (x != i) && inner.isVol x
+  | .joint ps cs, x => (x == pn && ps.isVol pn) || (x == cn && cs.isVol cn)
+
+/-- the top-level volatile parameters a name depends on (free symbols of the dependency expression) -/
+def Scope.roots : Scope → Name → List Name
+  | .dict _ vol, x => if vol.contains x then [x] else []
+  | .mapped inner m, x =>
+      match m.lookup x with
+      | some e => e.vars.flatMap (fun y => inner.roots y)
+      | none => inner.roots x
+  | .range inner i _, x => if x = i then [] else inner.roots x
+  | .joint ps cs, x => if x = pn then ps.roots pn else if x = cn then cs.roots cn else []
+
+abbrev Assign := List (Name × Int)
+
+/-- new value of a constant: `new_constants.get(name, old)` -/
+def override (new : Assign) (kv : Name × Int) : Name × Int :=
+  (kv.1, match new.lookup kv.1 with | some v => v | none => kv.2)
+
+/-- `change_constants` (constants not present are ignored; a dict scope without a key to update is returned
+unchanged — `return self`) -/
+def Scope.change (new : Assign) : Scope → Scope
+  | .dict vals vol =>
+      if vals.any (fun kv => (new.lookup kv.1).isSome) then .dict (vals.map (override new)) vol
+      else .dict vals vol
+  | .mapped inner m => .mapped (inner.change new) m
+  | .range inner i v => .range (inner.change new) i v
+  | .joint ps cs => .joint (ps.change new) (cs.change new)
+
+/-! ## repetition definitions -/
+
+inductive Err where
+  | parameterMissing     -- ParameterNotProvidedException / ExpressionVariableMissingException
+  | assertion            -- "AtomicPT cannot be volatile"
+  | valueError           -- range() with step 0
+  deriving Repr, BEq, DecidableEq, Inhabited
+
+def Err.name : Err → String
+  | .parameterMissing => "parameter_missing"
+  | .assertion => "assertion"
+  | .valueError => "value_error"
+
+inductive RepDef where
+  | const (n : Nat)
+  | vol (e : Expr) (s : Scope)
+  deriving Repr, Inhabited
+
+/-- `Loop.volatile_repetition` is truthy (a `VolatileProperty` named tuple is never empty) -/
+def RepDef.isVol : RepDef → Bool
+  | .const _ => false
+  | .vol _ _ => true
+
+/-- `int(repetition_definition)`: negative values are clamped to 0 (with a warning) -/
+def RepDef.intOf : RepDef → Except Err Nat
+  | .const n => .ok n
+  | .vol e s => match e.eval s.get with
+      | some v => .ok v.toNat
+      | none => .error .parameterMissing
+
+/-- `update_volatile_dependencies`: the scope is replaced by `change_constants(new)` -/
+def RepDef.update (new : Assign) : RepDef → RepDef
+  | .const n => .const n
+  | .vol e s => .vol e (s.change new)
+
+/-- `VolatileValue.__mul__(int)` -/
+def RepDef.mulConst (k : Nat) : RepDef → RepDef
+  | .const n => .const (n * k)
+  | .vol e s => .vol (.mul e (.lit k)) s
+
+/-- the repetition definition `_merge_single_child` gives the merged loop (`p` parent, `c` child) -/
+def RepDef.prod (p c : RepDef) : RepDef :=
+  match p, c with
+  | .const a, .const b => .const (a * b)
+  | .const a, .vol e s => .vol (.mul e (.lit a)) s
+  | .vol e s, .const b => .vol (.mul e (.lit b)) s
+  | .vol ep sp, .vol ec sc =>
+      .vol (.mul (.max0 (.var pn)) (.max0 (.var cn))) (.joint (.mapped sp [(pn, ep)]) (.mapped sc [(cn, ec)]))
+
+/-- dependency roots of a count: the volatile top-level parameters it depends on -/
+def RepDef.roots : RepDef → List Name
+  | .const _ => []
+  | .vol e s => e.vars.flatMap s.roots
+
+/-! ## programs -/
+
+/-- a list of loops: `leaf` = loop with a waveform, `node` = loop with children (`body`), `rest` = the
+following siblings.  A program is the one-element forest holding the root loop. -/
+inductive Forest where
+  | nil
+  | leaf (rd : RepDef) (wf : Nat) (rest : Forest)
+  | node (rd : RepDef) (body rest : Forest)
+  deriving Repr, Inhabited
+
+def Forest.append : Forest → Forest → Forest
+  | .nil, g => g
+  | .leaf rd wf rest, g => .leaf rd wf (rest.append g)
+  | .node rd body rest, g => .node rd body (rest.append g)
+
+instance : Append Forest := ⟨Forest.append⟩
+
+def Forest.isNil : Forest → Bool
+  | .nil => true
+  | _ => false
+
+/-- apply `update_volatile_dependencies(new)` to every repetition definition -/
+def Forest.update (new : Assign) : Forest → Forest
+  | .nil => .nil
+  | .leaf rd wf rest => .leaf (rd.update new) wf (rest.update new)
+  | .node rd body rest => .node (rd.update new) (body.update new) (rest.update new)
+
+/-- observable counts: the same shape with evaluated counts, volatility flags and dependency roots -/
+inductive CForest where
+  | nil
+  | leaf (n : Nat) (v : Bool) (wf : Nat) (rest : CForest)
+  | node (n : Nat) (v : Bool) (body rest : CForest)
+  deriving Repr, Inhabited, DecidableEq
+
+def Forest.counts : Forest → Except Err CForest
+  | .nil => .ok .nil
+  | .leaf rd wf rest =>
+      match rd.intOf, rest.counts with
+      | .ok n, .ok r => .ok (.leaf n rd.isVol wf r)
+      | .error e, _ => .error e
+      | _, .error e => .error e
+  | .node rd body rest =>
+      match rd.intOf, body.counts, rest.counts with
+      | .ok n, .ok b, .ok r => .ok (.node n rd.isVol b r)
+      | .error e, _, _ => .error e
+      | _, .error e, _ => .error e
+      | _, _, .error e => .error e
+
+def repeatList (n : Nat) (xs : List Nat) : List Nat :=
+  match n with
+  | 0 => []
+  | k + 1 => xs ++ repeatList k xs
+
+/-- the fully unrolled sequence of played waveforms -/
+def CForest.play : CForest → List Nat
+  | .nil => []
+  | .leaf n _ wf rest => repeatList n [wf] ++ rest.play
+  | .node n _ body rest => repeatList n body.play ++ rest.play
+
+/-! ## templates -/
+
+inductive PT where
+  | atom (wf : Nat) (ps : List Name)                 -- AtomicPulseTemplate with parameters `ps`
+  | rep (e : Expr) (body : PT)                       -- RepetitionPulseTemplate
+  | seq (a b : PT)                                   -- SequencePulseTemplate (n-ary = nested)
+  | map (m : List (Name × Expr)) (body : PT)         -- MappingPulseTemplate
+  | forL (i : Name) (lo hi st : Expr) (body : PT)    -- ForLoopPulseTemplate
+  deriving Repr, Inhabited
+
+/-- Python `range(lo, hi, st)` for `st ≠ 0` -/
+def pyRange (lo hi st : Int) : List Int :=
+  if 0 < st then (List.range ((hi - lo + st - 1) / st).toNat).map (fun (k : Nat) => lo + st * (k : Int))
+  else if st < 0 then (List.range ((lo - hi + (-st) - 1) / (-st)).toNat).map (fun (k : Nat) => lo + st * (k : Int))
+  else []
+
+/-- `ParametrizedRange.to_range(scope)` -/
+def evalRange (s : Scope) (lo hi st : Expr) : Except Err (List Int) :=
+  match lo.eval s.get, hi.eval s.get, st.eval s.get with
+  | some l, some h, some t => if t = 0 then .error .valueError else .ok (pyRange l h t)
+  | _, _, _ => .error .parameterMissing
+
+/-- sequential composition of the iterations of a for loop -/
+def concatE (vals : List Int) (f : Int → Except Err Forest) : Except Err Forest :=
+  match vals with
+  | [] => .ok .nil
+  | v :: rest =>
+      match f v with
+      | .error e => .error e
+      | .ok x => match concatE rest f with
+          | .error e => .error e
+          | .ok y => .ok (x ++ y)
+
+/-- the repetition definition `RepetitionPulseTemplate._internal_create_program` builds for a positive count -/
+def markRd (e : Expr) (s : Scope) (n : Nat) : RepDef :=
+  if e.vars.any s.isVol then .vol e s else .const n
+
+/-- `_internal_create_program` through `LoopBuilder`: the children appended to the current top loop -/
+def compile : PT → Scope → Except Err Forest
+  | .atom wf ps, s =>
+      if ps.any s.isVol then .error .assertion
+      else if ps.all (fun p => (s.get p).isSome) then .ok (.leaf (.const 1) wf .nil)
+      else .error .parameterMissing
+  | .rep e body, s =>
+      match e.eval s.get with
+      | none => .error .parameterMissing
+      | some v =>
+        if v ≤ 0 then .ok .nil
+        else
+          match compile body s with
+          | .error err => .error err
+          | .ok b => if b.isNil then .ok .nil else .ok (.node (markRd e s v.toNat) b .nil)
+  | .seq a b, s =>
+      match compile a s with
+      | .error err => .error err
+      | .ok x => match compile b s with
+          | .error err => .error err
+          | .ok y => .ok (x ++ y)
+  | .map m body, s => compile body (.mapped s m)
+  | .forL i lo hi st body, s =>
+      match evalRange s lo hi st with
+      | .error err => .error err
+      | .ok vals => concatE vals (fun v => compile body (.range s i v))
+
+/-- `create_program`: the root loop (count 1) around the compiled children; `none` = empty program -/
+def createProgram (pt : PT) (params : Assign) (vol : List Name) : Except Err Forest :=
+  match compile pt (.dict params vol) with
+  | .error e => .error e
+  | .ok f => if f.isNil then .ok .nil else .ok (.node (.const 1) f .nil)
+
+/-- The hypotheses of `update_eq_fresh` as an executable test (what "inside the quantifier" means for a template
+and a scope): every count that depends on a volatile parameter is positive (a count of 0 creates no loop at all,
+so nothing could be updated later) and no for-loop range depends on a volatile parameter (the number of
+iterations is not a repetition count and is never marked). -/
+def PT.inside : PT → Scope → Bool
+  | .atom _ _, _ => true
+  | .rep e body, s =>
+      match e.eval s.get with
+      | none => true
+      | some v =>
+        if e.vars.any s.isVol then decide (0 < v) && body.inside s
+        else decide (v ≤ 0) || body.inside s
+  | .seq a b, s => a.inside s && b.inside s
+  | .map m body, s => body.inside (.mapped s m)
+  | .forL i lo hi st body, s =>
+      !((lo.vars ++ hi.vars ++ st.vars).any s.isVol) &&
+      match evalRange s lo hi st with
+      | .ok vals => vals.all (fun v => body.inside (.range s i v))
+      | .error _ => true
+
+/-! ### the same compilation split into count structure and marking (spec side) -/
+
+/-- count structure: every loop keeps the count expression and the scope it is evaluated in -/
+inductive CountTree where
+  | nil
+  | leaf (wf : Nat) (rest : CountTree)
+  | node (e : Expr) (s : Scope) (n : Nat) (body rest : CountTree)
+  deriving Repr, Inhabited
+
+def CountTree.append : CountTree → CountTree → CountTree
+  | .nil, g => g
+  | .leaf wf rest, g => .leaf wf (rest.append g)
+  | .node e s n body rest, g => .node e s n body (rest.append g)
+
+def CountTree.isNil : CountTree → Bool
+  | .nil => true
+  | _ => false
+
+def concatC (vals : List Int) (f : Int → Except Err CountTree) : Except Err CountTree :=
+  match vals with
+  | [] => .ok .nil
+  | v :: rest =>
+      match f v with
+      | .error e => .error e
+      | .ok x => match concatC rest f with
+          | .error e => .error e
+          | .ok y => .ok (x.append y)
+
+def compileCounts : PT → Scope → Except Err CountTree
+  | .atom wf ps, s =>
+      if ps.any s.isVol then .error .assertion
+      else if ps.all (fun p => (s.get p).isSome) then .ok (.leaf wf .nil)
+      else .error .parameterMissing
+  | .rep e body, s =>
+      match e.eval s.get with
+      | none => .error .parameterMissing
+      | some v =>
+        if v ≤ 0 then .ok .nil
+        else
+          match compileCounts body s with
+          | .error err => .error err
+          | .ok b => if b.isNil then .ok .nil else .ok (.node e s v.toNat b .nil)
+  | .seq a b, s =>
+      match compileCounts a s with
+      | .error err => .error err
+      | .ok x => match compileCounts b s with
+          | .error err => .error err
+          | .ok y => .ok (x.append y)
+  | .map m body, s => compileCounts body (.mapped s m)
+  | .forL i lo hi st body, s =>
+      match evalRange s lo hi st with
+      | .error err => .error err
+      | .ok vals => concatC vals (fun v => compileCounts body (.range s i v))
+
+/-- mark exactly the counts whose expression mentions a volatile name of its scope -/
+def markVolatile : CountTree → Forest
+  | .nil => .nil
+  | .leaf wf rest => .leaf (.const 1) wf (markVolatile rest)
+  | .node e s n body rest => .node (markRd e s n) (markVolatile body) (markVolatile rest)
+
+/-! ## `Loop.cleanup()` -/
+
+/-- what `_merge_single_child` makes of a loop with definition `rd` whose (already cleaned) children are `b`;
+`rest` are the following siblings.  No child left: the loop is empty and dropped by the parent. -/
+def mergeSingle (rd : RepDef) (b : Forest) (rest : Forest) : Forest :=
+  match b with
+  | .nil => rest
+  | .leaf crd wf .nil => .leaf (rd.prod crd) wf rest
+  | .node crd cb .nil => .node (rd.prod crd) cb rest
+  | b => .node rd b rest
+
+/-- `cleanup()` applied to every loop of a children list (default actions; templates without measurements) -/
+def cleanupF : Forest → Forest
+  | .nil => .nil
+  | .leaf rd wf rest => .leaf rd wf (cleanupF rest)
+  | .node rd body rest => mergeSingle rd (cleanupF body) (cleanupF rest)
+
+/-! ## `TaborProgram.update_volatile_parameters` over a flat array of table cells
+
+`cells` are the repetition counts stored in the (advanced) sequencer tables; `vpos` lists the volatile
+positions in iteration order, each naming the cell it designates (several positions name the same cell when
+two advanced-table entries share one sequencer table) and its repetition definition. -/
+
+def setCell (cells : List Nat) (i : Nat) (v : Nat) : List Nat := cells.set i v
+
+/-- returns the new cells and the reported modifications `(cell, new value)` in order -/
+def tableUpdate (new : Assign) : List (Nat × RepDef) → List Nat → List Nat × List (Nat × Nat)
+  | [], cells => (cells, [])
+  | (i, rd) :: more, cells =>
+      match (rd.update new).intOf with
+      | .error _ => tableUpdate new more cells
+      | .ok v =>
+        if cells[i]? = some v then tableUpdate new more cells
+        else
+          let r := tableUpdate new more (setCell cells i v)
+          (r.1, (i, v) :: r.2)
+
+/-! ## line protocol -/
+
+partial def parseExpr : Sexp → Option Expr
+  | .atom a => match a.toInt? with
+      | some v => some (.lit v)
+      | none => some (.var a)
+  | .list (.atom "+" :: x :: xs) => do
+      let x ← parseExpr x
+      xs.foldlM (fun acc y => do let y ← parseExpr y; pure (Expr.add acc y)) x
+  | .list (.atom "*" :: x :: xs) => do
+      let x ← parseExpr x
+      xs.foldlM (fun acc y => do let y ← parseExpr y; pure (Expr.mul acc y)) x
+  | .list [.atom "-", x, y] => do
+      let x ← parseExpr x; let y ← parseExpr y; pure (.sub x y)
+  | .list [.atom "^", x, .atom k] => do
+      let x ← parseExpr x; let k ← k.toNat?; pure (.pow x k)
+  | .list [.atom "max0", x] => do
+      let x ← parseExpr x; pure (.max0 x)
+  | _ => none
+
+def parseName : Sexp → Option Name
+  | .atom a => some a
+  | _ => none
+
+def parseMapping (xs : List Sexp) : Option (List (Name × Expr)) :=
+  xs.mapM fun
+    | .list [.atom k, e] => do let e ← parseExpr e; pure (k, e)
+    | _ => none
+
+partial def parsePT : Sexp → Option PT
+  | .list [.atom "atom", wf, .list ps] => do
+      let wf ← nat? wf; let ps ← ps.mapM parseName; pure (.atom wf ps)
+  | .list [.atom "rep", e, b] => do
+      let e ← parseExpr e; let b ← parsePT b; pure (.rep e b)
+  | .list (.atom "seq" :: x :: xs) => do
+      let all ← (x :: xs).mapM parsePT
+      match all.reverse with
+      | [] => none
+      | last :: revInit => pure (revInit.foldl (fun acc p => PT.seq p acc) last)
+  | .list [.atom "map", .list m, b] => do
+      let m ← parseMapping m; let b ← parsePT b; pure (.map m b)
+  | .list [.atom "for", .atom i, lo, hi, st, b] => do
+      let lo ← parseExpr lo; let hi ← parseExpr hi; let st ← parseExpr st; let b ← parsePT b
+      pure (.forL i lo hi st b)
+  | _ => none
+
+def parseAssign (xs : List Sexp) : Option Assign :=
+  xs.mapM fun
+    | .list [.atom k, v] => do let v ← int? v; pure (k, v)
+    | _ => none
+
+def parseUpdates (xs : List Sexp) : Option (List Assign) :=
+  xs.mapM fun
+    | .list ys => parseAssign ys
+    | _ => none
+
+def dedupNames (xs : List Name) : List Name :=
+  xs.foldl (fun acc x => if acc.contains x then acc else acc ++ [x]) []
+
+/-- printed program: `(n count v|c (roots…) child…)` / `(l count v|c (roots…) wf)` -/
+partial def showForest : Forest → List Sexp
+  | .nil => []
+  | .leaf rd wf rest =>
+      let c := match rd.intOf with | .ok n => ofNat n | .error e => atom ("error:" ++ e.name)
+      .list [atom "l", c, atom (if rd.isVol then "v" else "c"),
+             .list ((dedupNames rd.roots).map atom), ofNat wf] :: showForest rest
+  | .node rd body rest =>
+      let c := match rd.intOf with | .ok n => ofNat n | .error e => atom ("error:" ++ e.name)
+      .list ([atom "n", c, atom (if rd.isVol then "v" else "c"),
+              .list ((dedupNames rd.roots).map atom)] ++ showForest body) :: showForest rest
+
+def applyPipeline (p : String) (f : Forest) : Option Forest :=
+  if p = "none" then some f else if p = "cleanup" then some (cleanupF f) else none
+
+/-- accumulated parameter values after a list of updates (what a fresh instantiation is given) -/
+def overrideAll (params : Assign) (ups : List Assign) : Assign :=
+  ups.foldl (fun p new => p.map (override new)) params
+
+/-- prefixes `[u1], [u1,u2], …` -/
+def prefixes {α} : List α → List (List α)
+  | [] => []
+  | x :: xs => [x] :: (prefixes xs).map (x :: ·)
+
+def exceptSexp (tag : String) (r : Except Err Forest) : Sexp :=
+  match r with
+  | .ok f => .list (atom tag :: showForest f)
+  | .error e => .list [atom tag, atom "error", atom e.name]
+
+/-- `(c15 run <pipeline> <pt> (<params>) (<vol>) (<updates>))` →
+`(ok (orig …) (upd …)… (fresh …)…)`: the model's program, the program after each update
+(`update_volatile_dependencies` on every node) and the spec: a fresh instantiation at the accumulated values -/
+def handleRun (p : String) (pt : PT) (params : Assign) (vol : List Name) (ups : List Assign) : Sexp :=
+  match createProgram pt params vol with
+  | .error e => .list [atom "error", atom e.name]
+  | .ok f0 =>
+    match applyPipeline p f0 with
+    | none => err "unknown-pipeline"
+    | some f =>
+      let upds := (prefixes ups).map (fun pre => pre.foldl (fun g new => g.update new) f)
+      let fresh := (prefixes ups).map (fun pre =>
+        match createProgram pt (overrideAll params pre) vol with
+        | .error e => Except.error e
+        | .ok g => match applyPipeline p g with
+            | some g' => Except.ok g'
+            | none => Except.ok g)
+      .list ([atom "ok", .list (atom "orig" :: showForest f)]
+             ++ upds.map (fun g => .list (atom "upd" :: showForest g))
+             ++ fresh.map (exceptSexp "fresh"))
+
+/-! ### the judge: an observed program against the spec (fresh instantiation at the accumulated values) -/
+
+partial def parseCForest : List Sexp → Option CForest
+  | [] => some .nil
+  | .list [.atom "l", n, .atom v, .list _, wf] :: rest => do
+      let n ← nat? n; let wf ← nat? wf; let r ← parseCForest rest
+      pure (.leaf n (v == "v") wf r)
+  | .list (.atom "n" :: n :: .atom v :: .list _ :: kids) :: rest => do
+      let n ← nat? n; let b ← parseCForest kids; let r ← parseCForest rest
+      pure (.node n (v == "v") b r)
+  | _ => none
+
+/-- same shape and waveforms -/
+def CForest.sameShape : CForest → CForest → Bool
+  | .nil, .nil => true
+  | .leaf _ _ w r, .leaf _ _ w' r' => w == w' && r.sameShape r'
+  | .node _ _ b r, .node _ _ b' r' => b.sameShape b' && r.sameShape r'
+  | _, _ => false
+
+def CForest.sameCounts : CForest → CForest → Bool
+  | .nil, .nil => true
+  | .leaf n _ _ r, .leaf n' _ _ r' => n == n' && r.sameCounts r'
+  | .node n _ b r, .node n' _ b' r' => n == n' && b.sameCounts b' && r.sameCounts r'
+  | _, _ => false
+
+def CForest.sameMarks : CForest → CForest → Bool
+  | .nil, .nil => true
+  | .leaf _ v _ r, .leaf _ v' _ r' => v == v' && r.sameMarks r'
+  | .node _ v b r, .node _ v' b' r' => v == v' && b.sameMarks b' && r.sameMarks r'
+  | _, _ => false
+
+/-- the judge of `update_eq_fresh` / `marked_iff`: `obs` is what the implementation shows after the updates,
+`spec` the counts of a fresh instantiation (+ the same pipeline) at the accumulated values -/
+def judgeAgainst (spec obs : CForest) : String :=
+  if spec.sameShape obs then
+    if !spec.sameCounts obs then "counts"
+    else if !spec.sameMarks obs then "marks"
+    else "ok"
+  else if spec.play == obs.play then "ok-play"      -- zero counts: a fresh program has no such loop
+  else "play"
+
+def handleJudge (p : String) (pt : PT) (params : Assign) (vol : List Name) (ups : List Assign)
+    (obs : List Sexp) : Sexp :=
+  match parseCForest obs with
+  | none => err "bad-observation"
+  | some o =>
+    match createProgram pt (overrideAll params ups) vol with
+    | .error e => .list [atom "spec-error", atom e.name]
+    | .ok g =>
+      match applyPipeline p g with
+      | none => err "unknown-pipeline"
+      | some g' =>
+        match g'.counts with
+        | .error e => .list [atom "spec-error", atom e.name]
+        | .ok spec =>
+          let v := judgeAgainst spec o
+          if v == "ok" || v == "ok-play" then .list [atom v] else .list [atom "violates", atom v]
+
+def parseCells (xs : List Sexp) : Option (List Nat) := xs.mapM nat?
+
+partial def parseScope : Sexp → Option Scope
+  | .list [.atom "dict", .list vals, .list vol] => do
+      let vals ← parseAssign vals; let vol ← vol.mapM parseName; pure (.dict vals vol)
+  | .list [.atom "mapped", inner, .list m] => do
+      let inner ← parseScope inner; let m ← parseMapping m; pure (.mapped inner m)
+  | .list [.atom "range", inner, .atom i, v] => do
+      let inner ← parseScope inner; let v ← int? v; pure (.range inner i v)
+  | .list [.atom "joint", ps, cs] => do
+      let ps ← parseScope ps; let cs ← parseScope cs; pure (.joint ps cs)
+  | _ => none
+
+def parseVpos (xs : List Sexp) : Option (List (Nat × RepDef)) :=
+  xs.mapM fun
+    | .list [i, e, sc] => do
+        let i ← nat? i; let e ← parseExpr e; let sc ← parseScope sc; pure (i, RepDef.vol e sc)
+    | _ => none
+
+/-- `(c15 table (<new>) ((cell expr scope)…) (cells…))` → `(ok (cells…) (mods (cell value)…) (deps (names…)…))` -/
+def handleTable (new : Assign) (vpos : List (Nat × RepDef)) (cells : List Nat) : Sexp :=
+  let r := tableUpdate new vpos cells
+  let deps := vpos.map (fun p => match p.2 with
+    | .vol e s => Sexp.list ((dedupNames (e.vars.filter s.isVol)).map atom)
+    | .const _ => Sexp.list [])
+  .list [atom "ok", .list (r.1.map ofNat), .list (r.2.map (fun m => .list [ofNat m.1, ofNat m.2])), .list deps]
+
 def handle : List Sexp → Sexp
-  | _ => Sexp.err "c15-not-implemented"
+  | [.atom "run", .atom p, pt, .list params, .list vol, .list ups] =>
+      match parsePT pt, parseAssign params, vol.mapM parseName, parseUpdates ups with
+      | some pt, some params, some vol, some ups => handleRun p pt params vol ups
+      | _, _, _, _ => err "c15-bad-request"
+  | [.atom "table", .list new, .list vpos, .list cells] =>
+      match parseAssign new, parseVpos vpos, parseCells cells with
+      | some new, some vpos, some cells => handleTable new vpos cells
+      | _, _, _ => err "c15-bad-request"
+  | [.atom "flags", pt, .list params, .list vol] =>
+      match parsePT pt, parseAssign params, vol.mapM parseName with
+      | some pt, some params, some vol => .list [atom "flags", ofBool (pt.inside (.dict params vol))]
+      | _, _, _ => err "c15-bad-request"
+  | [.atom "judge", .atom p, pt, .list params, .list vol, .list ups, .list obs] =>
+      match parsePT pt, parseAssign params, vol.mapM parseName, parseUpdates ups with
+      | some pt, some params, some vol, some ups => handleJudge p pt params vol ups obs
+      | _, _, _, _ => err "c15-bad-request"
+  | _ => err "c15-bad-request"
 
 end QP.C15
